@@ -373,6 +373,13 @@ def check_property(prop: str, tier: str, seed: int, write_baseline=False, only_u
             errors.append(f"{r['unit']}: zero obligations")
         trusted |= {"external:" + e for e in r.get("externals", [])}
         trusted |= {"inlined:" + e for e in r.get("inlined", [])}
+        for q in r.get("used_contracts") or []:
+            cq = reg.contracts.get(q)
+            if cq is not None and not (cq.file and cq.verify) and not cq.inline:
+                # a contract assumed at call sites and not verified against a body in /repo: interface of an abstract
+                # method (its overrides in /repo are verified against it), a definition clause, or an external summary
+                kind = "interface" if any(c2.overrides == q for c2 in reg.contracts.values()) else "assumed-contract"
+                trusted.add(f"{kind}:{q}" + (f" -- {cq.note[:140]}" if cq.note else ""))
         assumptions |= set(r.get("assumptions", []))
         for ob in r["obligations"]:
             n_obl += 1
